@@ -1005,6 +1005,77 @@ def _collect_bad(results, n_expected):
     return out if len(out) == n_expected else None
 
 
+# ------------------------------------------------------------------------------------------------ onnxruntime in a child process
+# onnxruntime traps (SIGFPE) on INT_MIN / -1; the grids avoid that pair at the kernel inputs, but a changed plugin could
+# feed it to an inner Div.  The exported models therefore run in a child process: a crash is a finding, not a dead check.
+def _ort_worker(d):
+    import onnxruntime as ort
+    todo = json.load(open(os.path.join(d, "todo.json")))
+    for i, scalar_loop in todo:
+        with open(os.path.join(d, "current"), "w") as fh:
+            fh.write(str(i))
+        try:
+            so = ort.SessionOptions()
+            so.log_severity_level = 4
+            sess = ort.InferenceSession(open(os.path.join(d, f"{i}.onnx"), "rb").read(), so, providers=["CPUExecutionProvider"])
+            names = [x.name for x in sess.get_inputs()]
+            z = np.load(os.path.join(d, f"{i}.npz"))
+            arrs = [z[f"arr_{j}"] for j in range(len(z.files))]
+            if scalar_loop:
+                outs = [sess.run(None, {names[0]: arrs[0], names[1]: np.asarray(v)})[0] for v in arrs[1]]
+                np.savez(os.path.join(d, f"{i}.out.npz"), *outs)
+            else:
+                np.savez(os.path.join(d, f"{i}.out.npz"), sess.run(None, dict(zip(names, arrs)))[0])
+        except Exception as e:  # noqa: BLE001
+            with open(os.path.join(d, f"{i}.err"), "w") as fh:
+                fh.write(str(e).replace("\n", " ")[:600])
+    os.remove(os.path.join(d, "current"))
+
+
+def ort_search(ctx, todo_variants):
+    """run every exported model on its grid in a child onnxruntime process; fills v.ort / v.ort_err / v.status"""
+    import sys
+    d = os.path.join(ctx.work, "ort")
+    os.makedirs(d, exist_ok=True)
+    pending = []
+    for i, v in enumerate(todo_variants):
+        with open(os.path.join(d, f"{i}.onnx"), "wb") as fh:
+            fh.write(v.model.SerializeToString())
+        if v.k.name == "dynamic_slice":
+            np.savez(os.path.join(d, f"{i}.npz"), np.arange(v.k.extra["dim"], dtype=np.int32), v.inputs[0])
+        else:
+            np.savez(os.path.join(d, f"{i}.npz"), *v.inputs)
+        pending.append((i, v.k.name == "dynamic_slice"))
+    while pending:
+        json.dump(pending, open(os.path.join(d, "todo.json"), "w"))
+        rc, out = common.run([sys.executable, os.path.abspath(__file__), "--ort-worker", d], 1200)
+        cur = os.path.join(d, "current")
+        if rc == 0 or not os.path.exists(cur):
+            if rc != 0:
+                for i, _ in pending:
+                    if not os.path.exists(os.path.join(d, f"{i}.out.npz")) and not os.path.exists(os.path.join(d, f"{i}.err")):
+                        with open(os.path.join(d, f"{i}.err"), "w") as fh:
+                            fh.write("onnxruntime worker failed: " + out[-300:])
+            break
+        c = int(open(cur).read())
+        os.remove(cur)
+        with open(os.path.join(d, f"{c}.crash"), "w") as fh:
+            fh.write(f"the onnxruntime process died (exit status {rc}) while running this model")
+        pending = [(i, s_) for i, s_ in pending if i > c]
+    for i, v in enumerate(todo_variants):
+        po, pe, pc = (os.path.join(d, f"{i}.{e}") for e in ("out.npz", "err", "crash"))
+        if os.path.exists(pc):
+            v.status, v.ort_err = "ort-crash", open(pc).read()
+        elif os.path.exists(po):
+            z = np.load(po)
+            outs = [z[f"arr_{j}"] for j in range(len(z.files))]
+            v.ort = outs if v.k.name == "dynamic_slice" else outs[0]
+            v.status = "ran"
+        else:
+            v.ort_err = open(pe).read() if os.path.exists(pe) else "no result"
+            v.status = "ort-no-kernel" if "NOT_IMPLEMENTED" in v.ort_err else "ort-error"
+
+
 # ------------------------------------------------------------------------------------------------ the check
 PROP = "C01"          # findings of this sub-check are findings of property C01
 
@@ -1136,19 +1207,18 @@ def run(ctx):
         if v.type_errors:
             v.status = "onnx-type-invalid"
             try:
-                run_ort(v.model, v.k, v.dt, tuple(a[:1] for a in v.inputs))
-                v.ort_err = "onnxruntime nevertheless ran it"
+                import onnxruntime as ort
+                so = ort.SessionOptions()
+                so.log_severity_level = 4
+                ort.InferenceSession(v.model.SerializeToString(), so, providers=["CPUExecutionProvider"])
+                v.ort_err = "onnxruntime nevertheless loads it"
             except Exception as e:  # noqa: BLE001
                 v.ort_err = "onnxruntime: " + str(e).replace("\n", " ")[:200]
+    ort_search(ctx, [v for v in live if v.status != "onnx-type-invalid"])
+    for v in live:
+        v.shape_bad = v.dtype_bad = False
+        if v.status != "ran":
             continue
-        try:
-            v.ort = run_ort(v.model, v.k, v.dt, v.inputs)
-            v.status = "ran"
-        except Exception as e:  # noqa: BLE001
-            v.ort_err = str(e).replace("\n", " ")
-            v.status = "ort-no-kernel" if "NOT_IMPLEMENTED" in v.ort_err else "ort-error"
-            continue
-        v.shape_bad = False
         if v.k.name == "dynamic_slice":
             exp_rows = [np.asarray(r).tolist() for r in v.jax]
             got_rows = [np.asarray(r).tolist() for r in v.ort]
@@ -1240,6 +1310,12 @@ def run(ctx):
             continue
         if v.status == "ort-no-kernel":
             no_kernel.append(v.id)
+            continue
+        if v.status == "ort-crash":
+            ctx.violate(_reason_key(v, "onnxruntime-crash"),
+                        f"{v.k.name} on {v.dt}: {v.ort_err} on the boundary grid (integer division overflow inside the graph?); "
+                        f"nodes {structure(v.model)}",
+                        {"kind": "ort-error", "kernel": v.k.name, "dtype": v.dt, "input": point(v, 0), "nodes": structure(v.model)})
             continue
         if v.status == "ort-error":
             ctx.violate(_reason_key(v, "ort-rejects-model"),
@@ -1357,3 +1433,9 @@ def replay(path):
     same = g0.shape == j0.shape and bool((g0 == j0).all()) and g0.dtype == j0.dtype
     print("-> ok" if same else "-> still violated")
     return 0 if same else 1
+
+
+if __name__ == "__main__":
+    import sys
+    if len(sys.argv) == 3 and sys.argv[1] == "--ort-worker":
+        _ort_worker(sys.argv[2])
